@@ -9,7 +9,7 @@ statement) in the files the properties are anchored in:
   3. run the quick tier of the checks mapped to the file against the copy.
 Writes mutation/results.jsonl; survivors are triaged by hand in DESIGN.md.
 
-usage: campaign.py <worker-index> <workers> [max-per-file]
+usage: campaign.py <worker-index> <workers> [max-per-file [sample-seed]]
 """
 import json, os, random, re, shutil, subprocess, sys, tempfile, time
 
@@ -23,15 +23,15 @@ FILES = {
     "tds/login.go": ["C08", "C09"],
     "tds/loginConfig.go": ["C06", "C09", "C08"],
     "tds/crypto.go": ["C09", "C08", "C10"],
-    "tds/field.go": ["C06", "C07", "C04", "C10"],
+    "tds/field.go": ["C06", "C07", "C04", "C10", "C02"],
     "tds/fieldData.go": ["C06", "C07", "C04", "C10"],
     "tds/fieldFmt.go": ["C06", "C07", "C04", "C10"],
     "tds/packageDone.go": ["C06", "C07", "C03", "C10"],
     "tds/packageEED.go": ["C06", "C07", "C11", "C10"],
     "tds/packageEnvChange.go": ["C06", "C07", "C11", "C10"],
-    "tds/packageParams.go": ["C06", "C07", "C04", "C10"],
+    "tds/packageParams.go": ["C06", "C07", "C04", "C10", "C02", "C03"],
     "tds/packageParamFmt.go": ["C06", "C07", "C04", "C10"],
-    "tds/packageRowFmt.go": ["C06", "C07", "C04", "C10"],
+    "tds/packageRowFmt.go": ["C06", "C07", "C04", "C10", "C02"],
     "tds/packageCapability.go": ["C06", "C07", "C08", "C10"],
     "tds/packageLoginAck.go": ["C06", "C07", "C08", "C10"],
     "tds/packageDynamic.go": ["C06", "C07", "C10"],
@@ -108,7 +108,7 @@ def run(cmd, cwd=None, env=None, timeout=1500):
 def main():
     widx, workers = int(sys.argv[1]), int(sys.argv[2])
     per_file = int(sys.argv[3]) if len(sys.argv) > 3 else 6
-    rnd = random.Random(20260926)
+    rnd = random.Random(int(sys.argv[4]) if len(sys.argv) > 4 else 20260926)
     plan = []
     for rel, checks in sorted(FILES.items()):
         src = os.path.join("/repo", rel)
@@ -163,7 +163,7 @@ def main():
             if rc != 0:
                 rec["result"] = "killed-by-pinned-suite"
                 continue
-            env = dict(ENV, VERIF_REPO=d, VERIF_MUT_BUILD="/verif/.build-mut-%d" % widx)
+            env = dict(ENV, VERIF_REPO=d, VERIF_MUT_BUILD="/verif/.build-mut-%d" % widx, VERIF_LEG_TIMEOUT="150")
             rec["checks"] = {}
             rec["result"] = "survived"
             for c in checks:
@@ -175,10 +175,13 @@ def main():
                     rec["result"] = "caught"
                     rec["caught_by"] = c
                     break
-                if rc != 0 and rec["result"] == "survived":
-                    rec["result"] = "inconclusive"
+                if rc != 0:
+                    # noticed, but without a verdict (typically: the mutant hangs
+                    # and the shortened leg timeout of the campaign fired)
+                    rec["result"] = "noticed-inconclusive"
                     rec["inconclusive_in"] = c
                     rec["tail"] = o[-600:]
+                    break
         finally:
             shutil.rmtree(d, ignore_errors=True)
             shutil.rmtree("/verif/.build-mut-%d" % widx, ignore_errors=True)
